@@ -141,13 +141,17 @@ let run_hist (path : string) =
                    | Some d ->
                        pend_op := OAdd (d, Z0);
                        (match do_step (OAdd (d, Z0)) with
-                        | BAdd r -> if ares_string r <> rhs then mismatch "add" rhs (ares_string r)
+                        | BAdd r ->
+                            (* rejection kinds are recognised by message text (harness addClass); an unrecognised wording
+                               ("other") is accepted as any rejection the model predicts: rewording an error is not a difference *)
+                            let reworded = rhs = "other" && (match r with ROk -> false | _ -> true) in
+                            if ares_string r <> rhs && not reworded then mismatch "add" rhs (ares_string r)
                         | _ -> ()))
               | "B", [_] ->
                   incr nops; pend_txt := "B"; pend_res := None; pend_op := OAddBad;
                   (match do_step OAddBad with
                    | BAdd r -> let m = (match r with RFlush -> "flush" | _ -> "other") in
-                       if rhs <> m then mismatch "add-unreadable" rhs m
+                       if rhs <> m && rhs <> "other" then mismatch "add-unreadable" rhs m
                    | _ -> ())
               | "R", [] ->
                   incr nops; pend_txt := "R"; pend_op := OResolve;
@@ -177,6 +181,10 @@ let run_hist (path : string) =
                        pend_op := (if rhs = "ok" then OSetMeta (Some d) else OInfo);
                        ignore (do_step (OSetMeta (Some d)));
                        if rhs <> "ok" then mismatch "setmeta" rhs "ok")
+              | "N", [] ->
+                  (* SetMetadata with a value that cannot be read as a document: refused, the slot keeps what it held *)
+                  incr nops; pend_txt := "N"; pend_res := None; pend_op := OInfo;
+                  if rhs = "ok" then mismatch "setmeta-unreadable" rhs "err"
               | "I", [] ->
                   incr nops; pend_txt := "I"; pend_res := None; pend_op := OInfo;
                   (match do_step OInfo with
